@@ -19,6 +19,7 @@ EnvE == IF Ev.under = <<>> THEN FALSE ELSE Ev.under[1].e
 \* the observable outcome equals the machine's
 Matches == /\ Ev.rn = ret'.n /\ Ev.err = ret'.err
            /\ Ev.under = calls'
+           /\ (Ev.cur >= 0 => Ev.cur = cur')          \* the cursor itself, through the verif hook
            /\ Confined' /\ CursorNotBeforeBase'
 
 TraceNew     == IsEvent("New")     /\ Ev.base >= 0 /\ Ev.n >= 0 /\ New(Ev.base, Ev.n) /\ Ev.under = <<>>
